@@ -828,6 +828,48 @@ func runC07(c *hc.Ctx) error {
 	}
 	componentStream(c)
 	concurrentRepetition(c, grids)
+	// built-in sets whose CRS lists northing first (the point of origin is put in x,y order on every use): the same
+	// loaded set used again and again must keep giving the same answer
+	for _, name := range []string{"EuropeanETRS89_LAEAQuad", "NZTM2000Quad", "WGS1984Quad"} {
+		id := 8 + c.Rng.Intn(4)
+		g, err := embeddedGrid(name, id)
+		if err != nil || g.Deep > 32 {
+			continue
+		}
+		for k := 0; k < c.N(3, 40); k++ {
+			size := int64(1) << g.Deep
+			w := Window{G: g, X0: g.Ext[0] + (size/4+c.Rng.Int63n(size/2))*g.Res, Y0: g.Ext[1] + (size/4+c.Rng.Int63n(size/2))*g.Res, W: 4 + c.Rng.Int63n(6), Unit: max64(1, g.Res/4)}
+			poly, _ := genValidPolygon(c.Rng, w)
+			okRT := true
+			for _, ring := range poly {
+				for j := range ring {
+					x, ok1 := fixRoundTrip(ring[j][0])
+					y, ok2 := fixRoundTrip(ring[j][1])
+					ring[j] = Pt{x, y}
+					okRT = okRT && ok1 && ok2
+				}
+			}
+			if !okRT || !validPolygon(poly) || !g.inGrid(poly) {
+				continue
+			}
+			cfg := randCfg(c.Rng)
+			cfg.IgnoreOutsideGrid = false
+			first := runSnap(g, poly, []int{id}, cfg, watchdog)
+			for rep := 2; rep <= 4; rep++ {
+				again := runSnap(g, poly, []int{id}, cfg, watchdog)
+				c.Sum.Evaluations++
+				c.Count("repetition on a built-in set with a northing-first CRS")
+				if again.Panic != first.Panic || !reflect.DeepEqual(first.Raw, again.Raw) {
+					obs := any(again.Raw)
+					if again.Panic != "" {
+						obs = again.Panic + ": " + again.PanicMsg
+					}
+					c.Violate(hc.Violation{What: fmt.Sprintf("the same polygon and settings returned different geometry on repetition %d with the same loaded tile matrix set", rep), Input: caseJSON(g, poly, []int{id}, cfg, first), Observed: obs})
+					break
+				}
+			}
+		}
+	}
 	return nil
 }
 
